@@ -1,6 +1,7 @@
 """C02 -- edge selection follows the oCSE forward/backward rule on every landscape."""
 import itertools
 import math
+import os
 from fractions import Fraction
 
 import numpy as np
@@ -162,6 +163,96 @@ def enumerate_paths(kind, ncand, nz, limit=None):
     return out
 
 
+def _explore_shard(args):
+    """worker: exhaustively explore every decision path extending the given prefixes, compare each with the model (replay + specOK).
+    Returns (number of paths, number with >=1 accept and >=1 reject, failure records, one sample)."""
+    from common import Driver
+
+    kind, ncand, nz, prefixes = args
+    drv = Driver()
+    npaths = nontriv = 0
+    fails, sample = [], None
+    batch, bmeta = [], []
+
+    def flush():
+        nonlocal batch, bmeta
+        if not batch:
+            return
+        for (k, case, S, evs), r in zip(bmeta, drv.run(batch)):
+            if "ok" not in r:
+                fails.append(("corr", k, case, r, None)); continue
+            if k == "spec":
+                if r["ok"] is not True:
+                    fails.append(("prop", "spec", case, None, None))
+                continue
+            m = r["ok"]; mev = m["events"]
+            same = (m["S"] == S and len(mev) == len(evs) and all(
+                a[0] == b[0] and _q(a[1]) == _q(b[1]) and a[2] == b[2] and a[3] == b[3] and _veq(a[4], b[4]) and a[5] == b[5] and _q(a[6]) == _q(b[6])
+                for a, b in zip(mev, evs)))
+            if not same:
+                fails.append(("corr", "replay", case, {"S": m["S"], "events": mev}, {"S": S, "events": evs}))
+        batch, bmeta = [], []
+
+    stack = [list(p) for p in prefixes]
+    while stack:
+        prefix = stack.pop()
+        w, S, trace = run_impl(kind, ncand, nz, prefix)
+        for i in range(len(prefix), len(trace)):
+            for alt in range(1, trace[i][1]):
+                stack.append([t[0] for t in trace[:i]] + [alt])
+        replay, spec, evs = requests_for(kind, ncand, nz, w, S, None)
+        acc = sum(1 for e in w.events if e[4]); rej = sum(1 for e in w.events if not e[4])
+        npaths += 1
+        nontriv += 1 if (acc and rej) else 0
+        case = {"variant": kind, "ncand": ncand, "zinit": replay["zinit"], "f": replay["f"], "slots": w.slots, "impl_events": evs, "impl_result": S}
+        if sample is None and acc and rej:
+            sample = case
+        batch.append(replay); bmeta.append(("replay", case, S, evs))
+        batch.append(spec); bmeta.append(("spec", case, S, evs))
+        if len(batch) >= 20000:
+            flush()
+        if len(fails) > 20:
+            break
+    flush()
+    return npaths, nontriv, fails[:20], sample
+
+
+def exhaustive_sharded(run, kind, ncand, nz, depth=3, workers=16):
+    """split the decision tree at `depth` decisions and explore the sub-trees in parallel"""
+    from concurrent.futures import ProcessPoolExecutor
+
+    # collect the distinct prefixes of length <= depth by a truncated DFS
+    prefixes, stack = [], [[]]
+    while stack:
+        prefix = stack.pop()
+        w, S, trace = run_impl(kind, ncand, nz, prefix)
+        if len(prefix) >= depth or len(trace) <= len(prefix):
+            prefixes.append(prefix); continue
+        # expand only the next decision
+        i = len(prefix)
+        for alt in range(trace[i][1]):
+            stack.append(prefix + [alt])
+    # a prefix shorter than depth that is a complete path is explored as is; others root sub-trees (no overlap: next decision fixed)
+    shards = [prefixes[i::workers * 4] for i in range(workers * 4)]
+    with ProcessPoolExecutor(workers) as ex:
+        results = list(ex.map(_explore_shard, [(kind, ncand, nz, sh) for sh in shards if sh]))
+    total = 0
+    for npaths, nontriv, fails, sample in results:
+        total += npaths
+        run.evaluations += npaths; run.traces += npaths
+        st = run.suites.setdefault(f"exhaustive-{kind}-{ncand}", {"cases": 0, "nontrivial": 0})
+        st["cases"] += npaths; st["nontrivial"] += nontriv
+        run.extra.setdefault("exhaustive_counts", {})[f"{kind}-{ncand}-nz{nz}"] = run.extra.get("exhaustive_counts", {}).get(f"{kind}-{ncand}-nz{nz}", 0) + npaths
+        if sample is not None and sum(1 for x in run.samples if x.get("suite") == f"exhaustive-{kind}-{ncand}") < 1:
+            run.samples.append({"suite": f"exhaustive-{kind}-{ncand}", "case": sample})
+        for f in fails:
+            if f[0] == "prop":
+                run.prop_fail("the tests performed / parents reported do not follow the oCSE forward/backward rule (declarative checker specOK rejects the implementation's own trace)", f[2], {"clause": "spec", "variant": kind})
+            else:
+                run.corr_fail(f[1], f[2], f[3], f[4], "model replay differs from the implementation")
+    return total
+
+
 def check(run, driver):
     run.rule = (
         "real standard/alternative oCSE, the two forward phases and backward driven by scripted oracles (one-hot coded columns identify "
@@ -183,6 +274,13 @@ def check(run, driver):
                 for prefix, w, S, trace in enumerate_paths(kind, ncand, nz):
                     jobs.append((f"exhaustive-{kind}", kind, ncand, nz, w, S, None))
     run.exhaustive = exhaustive_ok
+    if thorough and os.environ.get("C02_SKIP_4") != "1":
+        # every decision path for FOUR candidates (alternative: ~1.3 million; standard: ~1.9 million), explored in parallel;
+        # distinctness of these paths is structural (different decision sequences), they are counted in `exhaustive_counts`
+        n_alt = exhaustive_sharded(run, "alternative", 4, 0)
+        n_std = exhaustive_sharded(run, "standard", 4, 1)
+        # (these paths are not hashed into `distinct_nontrivial`, which therefore under-counts; see `suites` and `four_candidate_paths`)
+        run.extra["four_candidate_paths"] = {"alternative": n_alt, "standard": n_std}
     # forward phases and backward separately (sampled paths of the same trees)
     for it in range(300 if thorough else 100):
         ncand = int(rng.integers(1, 5))
